@@ -31,10 +31,10 @@ MANIFEST = {
              'the one-line functions (np.sum/np.nanmin/... on ONE 1-D or 2-D array are assumed to compute the mathematical function; S is the independent statement of that function and every '
              'case checks the implementation against it). Float results: an exactly representable result must be reproduced bit for bit, otherwise to 2^-40 relative (NumPy rounding and summation '
              'order are not part of the property); degrees of freedom <= 0 accept NaN or an infinity. '
-             'Partial: object-dtype columns (None / mixed Python objects) are not generated; complex, timedelta, float32/int32 widths not generated; string and datetime columns are checked on the '
+             'Partial: object-dtype columns (None / mixed Python objects) are not generated; complex, timedelta, float32 not generated; int8/uint8/int16 only as homogeneous frames (M has no integer wrap-around: inputs whose exact result leaves the row dtype are a known finding); string and datetime columns are checked on the '
              'Python side (frame vs its own per-line Series) and are not in the Coq model; overflow of int64 excluded by construction (|values| <= 8). '
              'M does not describe NumPy reductions over object arrays (rows mixing bool with numbers) nor uninitialised memory: those input classes are excluded from the M comparison by m_faithful and '
-             'are known findings against S. Eight input classes violate the property on the current tree (known/C15.jsonl); the multi-block all-bool sum is repaired (c69b2b9) and kept as a regression stratum.'),
+             'are known findings against S. Nine input classes violate the property on the current tree (known/C15.jsonl); the multi-block all-bool sum is repaired (c69b2b9) and kept as a regression stratum.'),
     'technique': 'refinement of the block-wise reduction algorithm to the per-line specification (Coq) + differential runs evaluated inside Coq + regenerated decision table',
 }
 PROPERTY_FILES = ['Properties/C15.v']
@@ -42,7 +42,7 @@ REFUTED_FILES = ['Refuted/C15.v']
 MODEL_FILES = ['SF/Reduce.v', 'Gen/Gen_c15_table.v']
 IMPORTS = ('Require Import SF.Prelude SF.Value SF.Dtype SF.Reduce Gen.Gen_c15_table.\n'
            'From Coq Require Import QArith.\nLocal Open Scope Z_scope.')
-RULE = ('api:reduce-all-layouts: every kind tuple over {int64,float64(NaN),bool} up to width 2 + 6 tuples of width 3 (quick) / all up to width 3 + 10 tuples of width 4 (thorough) x EVERY block layout x 10 functions x 2 axes x skipna on/off, fixed data with NaN; '
+RULE = ('api:reduce-all-layouts: every kind tuple over {int64,float64(NaN),bool} up to width 2 + 6 tuples of width 3 (quick) / all up to width 3 + 10 tuples of width 4 (thorough) x EVERY block layout x 10 functions x 2 axes x skipna on/off, fixed data with NaN; plus every layout of 3 (2) int8 / uint8 / int16 columns with values near the limits (column results fit the dtype, row sums do not); '
         'api:reduce-small-axes: 0 and 1 rows x 0..2(3) columns x every layout, and 0 columns x 2,3 rows; api:reduce-numeric / api:argminmax / api:cumulative: random frames (1-5 columns, 1-8 rows, values in {-3..4, .5, NaN}, random layout, ddof in {-1,0,1,2,3}); '
         'kernel: TypeBlocks.ufunc_axis_skipna with composable and size_one_unity both ways; api:series-reduce / api:index-reduce: one column as a Series, the labels of an Index; api:parity-str-datetime: every layout of 1-2(3) string / datetime64 columns; api:malformed-axis: axis 2,3 must raise; '
         'api:known-witness: one fixed input per known finding. A case is non-trivial when the frame has several blocks or several rows (kernel: when a flag differs from container.py); distinct = distinct (call, data, layout).')
@@ -194,6 +194,7 @@ F_ONE_ROW = 'C15-one-row-unity'
 F_ZERO_ROWS_LOGICAL = 'C15-zero-rows-logical'
 F_OBJROW = 'C15-object-rows'
 F_ARG_ALLNAN = 'C15-argminmax-all-nan'
+F_NARROW = 'C15-narrow-int-out-overflow'
 UNITY = ('sum', 'prod', 'min', 'max', 'mean', 'median')
 
 
@@ -201,9 +202,27 @@ def _row_kind(cols):
     ks = {c.dtype.kind for c in cols}
     if len(ks) == 1:
         return next(iter(ks))
+    if ks == {'i', 'u'}:
+        return 'i'
+
     if ks == {'i', 'f'}:
         return 'f'
     return 'O'
+
+
+def _narrow_overflow(cols, fn):
+    """some column's exact sum / product lies outside the range of the row dtype (np.result_type of the integer columns)"""
+    rd = np.result_type(*[c.dtype for c in cols])
+    if rd.kind not in 'iu' or rd.itemsize >= 8:
+        return False
+    info = np.iinfo(rd)
+    for c in cols:
+        v = 0 if fn == 'sum' else 1
+        for x in c.tolist():
+            v = v + x if fn == 'sum' else v * x
+        if not info.min <= v <= info.max:
+            return True
+    return False
 
 
 def classify_reduce(cols, layout, r, fn, axis, skipna):
@@ -217,6 +236,8 @@ def classify_reduce(cols, layout, r, fn, axis, skipna):
     if (multi and axis == 0 and not skipna and fn in UNITY and r == 1 and any(w == 1 for w, _ in layout)
             and not (rk == 'b' and fn in ('prod', 'min', 'max'))):      # a bool `out` accepts the size-1 array (sum counts into int)
         return F_ONE_ROW
+    if multi and axis == 0 and fn in ('sum', 'prod') and rk in 'iu' and _narrow_overflow(cols, fn):
+        return F_NARROW
     if multi and rk == 'O' and (fn in ('min', 'max') or (axis == 1 and fn in ('std', 'median', 'var', 'mean')) or (r == 0 and fn in ('sum', 'prod'))):
         return F_OBJROW
     return None
@@ -387,6 +408,29 @@ def api_all_layouts(ctx):
                                 yield _reduce_case(ctx, cs, layout, fn, axis, skipna, 1, index, columns, 'api:reduce-all-layouts')
 
 
+# narrow integer columns near the limits: every column sum / product fits the dtype (axis 0 is computed into the row
+# dtype), every first-row sum does not (a partial row sum stored in the row dtype would wrap)
+_NARROW = {
+    'int8': [np.array([100, 1, -1], dtype=np.int8), np.array([100, -1, 1], dtype=np.int8), np.array([27, 1, 2], dtype=np.int8)],
+    'uint8': [np.array([200, 1, 1], dtype=np.uint8), np.array([200, 1, 0], dtype=np.uint8), np.array([50, 1, 2], dtype=np.uint8)],
+    'int16': [np.array([30000, 1, -1], dtype=np.int16), np.array([30000, -1, 1], dtype=np.int16), np.array([7, 1, 2], dtype=np.int16)],
+}
+_NARROW_FUNCS = ('sum', 'prod', 'min', 'max', 'mean', 'any')
+
+
+def api_narrow_layouts(ctx):
+    """int8 / uint8 / int16 frames with values near the limits, every layout of 3 (and 2) columns"""
+    for name, pool in _NARROW.items():
+        for m in ((3,) if (ctx.tier == 'quick' and name != 'int8') else (2, 3)):
+            cols = [c.copy() for c in pool[:m]]
+            index, columns = _labels(None, 3, m)
+            for layout in zoo.layouts_for([c.dtype for c in cols]):
+                for fn in (_NARROW_FUNCS if ctx.tier == 'quick' else FUNCS):
+                    for axis in (0, 1):
+                        for skipna in (True, False):
+                            yield _reduce_case(ctx, cols, layout, fn, axis, skipna, 1, index, columns, 'api:reduce-all-layouts')
+
+
 def api_small_axes(ctx):
     """0- and 1-sized axes: 0/1 rows x 0..3 columns, every layout"""
     for r in (0, 1):
@@ -423,7 +467,7 @@ F_STR_SUM = 'C15-str-sum-truncated'
 F_DT_LOGICAL = 'C15-datetime-logical-uninitialised'
 F_DT_SKIPNA = 'C15-datetime-skipna'
 
-_STR_COLS = [np.array(['b', '', 'ab', 'a']), np.array(['a', 'bb', '', 'c']), np.array(['', 'a', 'b', 'zz'])]
+_STR_COLS = [np.array(['b', 'ab', 'ab', 'a']), np.array(['a', 'bb', 'b', 'c']), np.array(['', 'a', 'b', 'zz'])]
 _DT_COLS = [np.array(['2020-01-05', '2019-03-03', '2020-01-01', '2021-07-01'], dtype='datetime64[D]'),
             np.array(['2020-02-01', 'NaT', '2018-01-01', '2020-01-02'], dtype='datetime64[D]'),
             np.array(['2017-01-05', '2022-03-03', 'NaT', '2020-01-01'], dtype='datetime64[D]')]
@@ -500,8 +544,8 @@ def _parity_case(ctx, kind, cols, layout, fn, axis, skipna, index, columns):
 
 def api_parity_ext(ctx):
     """str and datetime64 frames, every layout: frame.f(axis) against f of every column / row taken as a Series"""
-    width = 2 if ctx.tier == 'quick' else 3
     for kind, pool, funcs in (('U', _STR_COLS, ('min', 'max', 'all', 'any', 'sum')), ('M', _DT_COLS, ('min', 'max', 'all', 'any'))):
+        width = 3 if (ctx.tier == 'thorough' or kind == 'U') else 2     # str: a 2-D block of two columns next to another block
         for m in range(1, width + 1):
             for r in ((3,) if ctx.tier == 'quick' else (1, 2, 4)):
                 cols = [pool[i][:r].copy() for i in range(m)]
@@ -547,6 +591,8 @@ def known_witnesses(ctx):
     yield _reduce_case(ctx, [np.array([], dtype=np.int64), np.array([], dtype=np.int64)], ((2, True),), 'all', 0, True, 0, [], col2, 'api:known-witness')
     yield _reduce_case(ctx, [np.array([np.nan, -1.0]), np.array([True, False])], ((1, False), (1, False)), 'min', 0, False, 0, idx2, col2, 'api:known-witness')
     yield _arg_case(ctx, [np.array([1.0, 2.0]), np.array([np.nan, np.nan])], ((2, True),), 'iloc_min', 0, True, idx2, col2, 'api:known-witness')
+    n3 = [np.array([100, -90, 5], dtype=np.int8), np.array([100, 7, -3], dtype=np.int8), np.array([5, 2, 1], dtype=np.int8)]
+    yield _reduce_case(ctx, n3, ((2, True), (1, False)), 'prod', 0, True, 0, [10, 11, 12], [20, 21, 22], 'api:known-witness')
     s2 = [np.array(['b', 'ab']), np.array(['a', 'bb'])]
     yield _parity_case(ctx, 'U', s2, ((1, False), (1, False)), 'sum', 0, True, idx2, col2)
     d2 = [np.array(['2020-01-05', 'NaT'], dtype='datetime64[D]'), np.array(['2020-02-01', '2019-01-01'], dtype='datetime64[D]')]
@@ -692,6 +738,7 @@ def index_cases(ctx):
 def cases(ctx):
     yield from known_witnesses(ctx)
     yield from api_all_layouts(ctx)
+    yield from api_narrow_layouts(ctx)
     yield from api_small_axes(ctx)
     yield from api_parity_ext(ctx)
     yield from api_malformed(ctx)
